@@ -9,7 +9,7 @@ From MW Require Import Model.Base Model.F64 Model.Num Model.Datum Model.Transfor
   Model.VmTypes Model.Heap Model.Gc Model.VmBase Model.Compile Model.Vm
   Proofs.VmProofs0 Proofs.GcProofs Proofs.SymtabProofs Proofs.QuoteHeapProofs
   Proofs.CompileProofs Proofs.RunProofs Proofs.CompileCorrect Proofs.TailProofs Proofs.FrameSteps
-  Proofs.CellFuelProofs Proofs.CompileCorrect2 Proofs.FrameSteps3 Proofs.Closures3.
+  Proofs.CellFuelProofs Proofs.CompileCorrect2 Proofs.FrameSteps3 Proofs.Closures3 Proofs.CompileCorrect3 Proofs.CompileStatic3.
 From MW Require Proofs.ScopeProofs.
 Open Scope N_scope.
 
@@ -147,6 +147,267 @@ Proof.
     exists (ep m), kk, eid, slots, v. auto 10.
   - pose proof PS as PS'. destruct PS' as (a & j & _ & _ & _ & -> & _).
     eapply ptr_slot_ext; [exact R04|intros w; apply vrep3_ext; exact R04|exact PS].
+Qed.
+
+
+
+(* ------------------------------------------------------------ running a closure *)
+(* what the induction on the reference derivation provides for the body of a closure *)
+Definition body_ok (sc : list text) (lv : list rval3) (rho : env3) (body : expr3) (r : rval3) (rho' : env3) : Prop :=
+  forall f l tail s l' s' code, wf3 body sc -> (cell_size (cell_of3 body) < f)%nat -> hdr3 l sc s -> minv s ->
+    compile_expression f l tail (cell_of3 body) s = ROk l' s' -> fwd l' = fwd l ++ code ->
+    exec3 ob s' (len (fwd l)) code tail lv rho r rho'.
+
+Lemma Forall2_vrep3_ext m m' vs rs : rext m m' -> Forall2 (fun v r => vrep3 m v r) vs rs ->
+  Forall2 (fun v r => vrep3 m' v r) vs rs.
+Proof. intros R H. induction H; constructor; [eapply vrep3_ext; eassumption|assumption]. Qed.
+
+(* from the first instruction (ENTER) of a closure entered with n arguments above the base B and
+   the return information (e, l0, i0) to the state after its RET — or after the RET of a frame
+   that a tail call of the body put in its place *)
+Lemma callee_run3 ps cs body cvals n B e l0 i0 vs rs rho1 r rho2 m5 lamp :
+  body_ok (ps ++ cs) (rs ++ cvals) rho1 body r rho2 ->
+  minv m5 -> vrep3 m5 (acc m5) (R3Clo ps cs body cvals) ->
+  (exists cp cep, acc m5 = VPtr cp /\ heap_get (hp m5) cp = Ok (VClosure lamp cep)) -> ip m5 = (lamp, 0) ->
+  length rs = length ps -> n = len ps ->
+  sp m5 = B + n + 3 -> sget m5 (B + n + 1) = VArgc n -> sget m5 (B + n + 2) = VEp e ->
+  sget m5 (B + n + 3) = VIp l0 i0 ->
+  len vs = n -> (forall i v, list_get vs i = Some v -> sget m5 (B + 1 + i) = v) ->
+  Forall2 (fun v r => vrep3 m5 v r) vs rs ->
+  genv_rel3 rho1 m5 ->
+  exists k m8, steps k m5 = Some m8 /\ rext m5 m8 /\ minv m8 /\ vrep3 m8 (acc m8) r /\
+    genv_rel3 rho2 m8 /\ sp m8 = B /\ ep m8 = e /\ ip m8 = (l0, i0) /\ bp m8 = bp m5 /\
+    out_log m8 = out_log m5 /\ (forall j, j <= B -> sget m8 j = sget m5 j).
+Proof.
+  intros IHb MI5 Vc (cp0 & cep0 & Hacc0 & Hcp0) Hip Hlrs Hn Hsp H1 H2 H3 Hvl Hvs Vvs G5.
+  cbn [vrep3] in Vc.
+  destruct Vc as (cp & lamp' & cep & ceid & cslots & Hacc & Acp & Ccp & Acep & Ccep & Ltc & Tc & Lcs & Lcv & CC & All).
+  assert (cp0 = cp) as -> by congruence.
+  assert (Hcp : heap_get (hp m5) cp = Ok (VClosure lamp' cep)) by (rewrite (heap_get_alloc _ _ Acp), Ccp; reflexivity).
+  assert (lamp' = lamp /\ cep0 = cep) as [-> ->] by (split; congruence).
+  assert (Hcep : heap_get (hp m5) cep = Ok (VLexEnv ceid)) by (rewrite (heap_get_alloc _ _ Acep), Ccep; reflexivity).
+  destruct CC as (lam & caps & cb & f & lam2 & s0 & lam3 & s0' & Hlam & Hem & Fa & Hce & Lcaps & Hbc & Hf & Wb & Hh2 & MI0 & Ecomp & F2 & F3 & XB).
+  pose proof (IHb f lam2 true s0 lam3 s0' cb Wb Hf Hh2 MI0 Ecomp F3) as EXb.
+  rewrite F2 in EXb. change (len [VOp OEnter]) with 1 in EXb.
+  pose proof (lam_in_code _ _ _ Hlam) as Hc5. rewrite Hbc in Hc5.
+  destruct Hlam as (lid & Al & Cl & Ltl & Tl).
+  assert (Hgl : heap_get (hp m5) lamp = Ok (VLambda lid)) by (rewrite (heap_get_alloc _ _ Al), Cl; reflexivity).
+  assert (Hlen : len (l_args lam) = n) by (rewrite Hn; unfold len; rewrite (Forall2_length _ _ _ Fa); reflexivity).
+  assert (Lcaps' : len caps = len cs) by (unfold len; rewrite Lcaps; reflexivity).
+  rewrite all_idx_nth in All.
+  assert (Hptr : forall j, n <= j -> j < n + len caps -> exists a k, list_get cslots j = Some (VLexPtr a k)).
+  { intros j Hj1 Hj2.
+    assert (Hk : exists cv, nth_error cvals (N.to_nat (j - n)) = Some cv).
+    { destruct (nth_error cvals (N.to_nat (j - n))) eqn:E; [eauto|]. apply nth_error_None in E. unfold len in *. lia. }
+    destruct Hk as (cv & Hk). destruct (All _ _ Hk) as (v' & Gv & (a & k & _ & _ & _ & -> & _)).
+    exists a, k. rewrite <- Gv. f_equal. lia. }
+  destruct (step_enter_closure3 ob m5 lamp _ cp cep lid lam (l_args lam) caps ceid cslots n Hc5 Hip eq_refl MI5 Hacc Hcp Hgl Tl
+              eq_refl Hem Hlen Hce Hcep Tc ltac:(rewrite Lcs, Lcaps', <- Hn; reflexivity) Hptr ltac:(lia)
+              ltac:(rewrite Hsp; replace (B + n + 3 - 2) with (B + n + 1) by lia; exact H1))
+    as (m6 & evp & env & E6 & MI6 & X56 & Hsp6 & Hbp6 & Hep6 & Hip6 & Hacc6 & Hlog6 & Hg6 & Htop6 & Hst6 &
+        Aev & Cev & Tev & Ltev & Lenv & Henvj & Henvc).
+  assert (Hbp6' : bp m6 = B + n) by (rewrite Hbp6, Hsp; lia).
+  assert (Hk6 : forall j, j <= B + n + 3 -> sget m6 j = sget m5 j) by (intros j Hj; apply Hst6; lia).
+  assert (Hfr6 : frame_at m6 n e (l0, i0) (bp m5)).
+  { unfold frame_at. rewrite Hbp6'. rewrite !Hk6 by lia.
+    replace (B + n + 4) with (sp m5 + 1) by lia. rewrite Htop6. cbn [fst snd]. repeat split; auto. lia. }
+  assert (Ht6 : tframe m6) by (exists n, e, (l0, i0), (bp m5); split; [exact Hfr6|lia]).
+  assert (L6 : lrel3 (rs ++ cvals) m6).
+  { intros i ri Hi. exists (next_id (st m5)), env. rewrite Hep6.
+    assert (Hnl : N.of_nat (length rs) = n) by (rewrite Hn, Hlrs; reflexivity).
+    destruct (N.ltb_spec i n) as [Hlt|Hge].
+    - rewrite nth_error_app1 in Hi by lia.
+      destruct (Forall2_nth_r _ _ _ Vvs _ _ Hi) as (v & Hv & Vv). exists v.
+      split; [exact Aev|]. split; [exact Cev|]. split; [exact Ltev|]. split; [exact Tev|]. split.
+      + rewrite (Henvj i Hlt). f_equal. rewrite <- (Hvs i v Hv). f_equal. lia.
+      + left. split; [eapply vrep3_not_lexptr; exact Vv|eapply vrep3_ext; eassumption].
+    - rewrite nth_error_app2 in Hi by lia.
+      destruct (All _ _ Hi) as (v' & Gv & PS). exists v'.
+      split; [exact Aev|]. split; [exact Cev|]. split; [exact Ltev|]. split; [exact Tev|]. split.
+      + rewrite (Henvc i Hge), <- Gv. f_equal. lia.
+      + right. eapply ptr_slot_ext; [exact X56|intros w; apply vrep3_ext; exact X56|exact PS]. }
+  assert (Hc6 : code_in m6 lamp ([VOp OEnter] ++ cb ++ [VOp ORet])) by (eapply code_in_ext; [exact Hc5|apply X56]).
+  assert (Hsb : seg ([VOp OEnter] ++ cb ++ [VOp ORet]) 1 cb) by (exists [VOp OEnter], [VOp ORet]; auto).
+  assert (G6 : genv_rel3 rho1 m6) by (eapply genv_rel3_ext; [apply X56|exact Hg6|exact G5]).
+  destruct (EXb m6 lamp _ (cext_trans _ _ _ XB (rx_cext _ _ X56)) MI6 Hc6 Hsb Hip6 G6 L6 (fun _ => Ht6))
+    as [(n7 & m7 & St7 & Fr7 & MI7 & Hip7 & V7 & G7)|[_ (n7 & m8 & k' & e' & i' & b' & St8 & Hfr' & X68 & MI8 & V8 & G8 & E1 & E2 & E3 & E4 & E5 & K8)]].
+  - (* the body ends at RET *)
+    pose proof (f2_frame _ _ Fr7) as Fr7'.
+    pose proof (code_in_ext _ _ _ _ Hc6 (fr_ext _ _ Fr7')) as Hc7.
+    assert (Hsr : seg ([VOp OEnter] ++ cb ++ [VOp ORet]) (1 + len cb) [VOp ORet]).
+    { exists ([VOp OEnter] ++ cb), []. rewrite app_nil_r, <- app_assoc. split; [reflexivity|]. lens. lia. }
+    assert (Hbp7 : bp m7 = B + n) by (rewrite (fr_bp _ _ Fr7'); exact Hbp6').
+    assert (Hsp7 : sp m7 = B + n + 4) by (rewrite (fr_sp _ _ Fr7'), Hsp6, Hsp; lia).
+    assert (Hk7 : forall j, j <= B + n + 4 -> sget m7 j = sget m6 j) by (intros j Hj; apply (fr_stack _ _ Fr7'); lia).
+    destruct Hfr6 as (F1 & F2' & F3' & F4 & _). rewrite Hbp6' in F1, F2', F3', F4. cbn [fst snd] in F3'.
+    pose proof (step_ret_n ob m7 lamp (1 + len cb) _ n e l0 i0 (bp m5) Hc7 Hip7 Hsr
+                  ltac:(rewrite Hbp7, <- Hsp7; apply MI7) ltac:(lia)
+                  ltac:(rewrite Hbp7, Hk7 by lia; exact F1) ltac:(rewrite Hbp7, Hk7 by lia; exact F2')
+                  ltac:(rewrite Hbp7, Hk7 by lia; exact F3') ltac:(rewrite Hbp7, Hk7 by lia; exact F4)) as E8.
+    set (m8 := with_bp (with_ip (with_ep (with_sp (with_ip m7 (lamp, 1 + len cb + 1)) (bp m7 - n)) e) (l0, i0)) (bp m5)) in *.
+    assert (X78 : rext m7 m8) by (apply rext_same; try reflexivity; lia).
+    exists (1 + n7 + 1)%nat, m8.
+    split; [eapply steps_trans; [eapply steps_trans; [apply steps_one; exact E6|exact St7]|apply steps_one; exact E8]|].
+    split; [eapply rext_trans; [exact X56|]; eapply rext_trans; [apply frame2_rext; exact Fr7|exact X78]|].
+    split.
+    { destruct MI7 as [HI GI SP]. constructor; [exact HI|exact GI|].
+      cbn [sp scap m8 with_bp with_ip with_ep with_sp with_stack]. lia. }
+    split; [eapply vrep3_ext; [exact X78|exact V7]|]. split; [eapply genv_rel3_ext; [apply X78|reflexivity|exact G7]|].
+    split; [cbn [sp m8 with_bp with_ip with_ep with_sp with_stack]; lia|].
+    split; [reflexivity|]. split; [reflexivity|]. split; [reflexivity|].
+    split; [cbn [out_log m8 with_bp with_ip with_ep with_sp with_stack]; rewrite (fr_log _ _ Fr7'); exact Hlog6|].
+    intros j Hj. change (sget m8 j) with (sget m7 j). rewrite Hk7, Hk6 by lia. reflexivity.
+  - (* the body left through a tail call *)
+    destruct Hfr6 as (F1 & F2' & F3' & F4 & _). destruct Hfr' as (F1' & F2'' & F3'' & F4' & _).
+    rewrite F1 in F1'. rewrite F2' in F2''. rewrite F3' in F3''. rewrite F4 in F4'.
+    injection F1' as <-. injection F2'' as <-. injection F4' as <-. cbn [fst snd] in F3''.
+    assert (i' = (l0, i0)) as -> by (destruct i'; cbn [fst snd] in F3''; congruence).
+    exists (1 + n7)%nat, m8. split; [eapply steps_trans; [apply steps_one; exact E6|exact St8]|].
+    split; [eapply rext_trans; eassumption|]. split; [exact MI8|]. split; [exact V8|]. split; [exact G8|].
+    split; [rewrite E1, Hbp6'; lia|]. split; [exact E2|]. split; [exact E3|]. split; [exact E4|].
+    split; [rewrite E5; exact Hlog6|].
+    intros j Hj. rewrite K8 by (rewrite Hbp6'; lia). apply Hk6. lia.
+Qed.
+
+(* ------------------------------------------------------------ application of a closure *)
+Lemma exec3_app_closure s0 p ca cf n (tail : bool) lv rho rs rho1 ps cs body cvals rho2 r rho3 :
+  exec_args3 ob s0 p ca n lv rho rs rho1 ->
+  exec3 ob s0 (p + len ca + 2) cf false lv rho1 (R3Clo ps cs body cvals) rho2 ->
+  length rs = length ps -> n = len ps ->
+  body_ok (ps ++ cs) (rs ++ cvals) rho2 body r rho3 ->
+  exec3 ob s0 p (ca ++ [VOp OPushImmediate; VArgc n] ++ cf ++ [VOp (if tail then OTCallAcc else OCallAcc)])
+        tail lv rho r rho3.
+Proof.
+  intros EX1 EX3 Hlrs Hn IHb m lp bc X MIm Hc Hs Hip G L Ht.
+  set (callop := VOp (if tail then OTCallAcc else OCallAcc)) in *.
+  apply seg_app in Hs as [Hsa Hs]. apply seg_app in Hs as [Hsi Hs]. rewrite len2 in Hs.
+  apply seg_app in Hs as [Hsf Hsc].
+  (* operands *)
+  destruct (EX1 m lp bc X MIm Hc Hsa Hip G L)
+    as (n1 & m1 & vs & St1 & MIm1 & Hip1 & G1 & Xm1 & Hsp1 & Hbp1 & Hep1 & Hlog1 & Hst1 & Hvl & Hvs & Vvs).
+  pose proof (code_in_ext _ _ _ _ Hc (rx_cext _ _ Xm1)) as Hc1.
+  (* PUSH Argc n *)
+  pose proof (step_pushimm ob m1 lp _ bc _ Hc1 Hip1 Hsi ltac:(discriminate)) as Ei.
+  set (m2 := pushed (with_ip m1 (lp, p + len ca + 2)) (VArgc n)) in *.
+  assert (Xm12 : rext m1 m2) by (apply rext_same; try reflexivity; lia).
+  assert (MIm2 : minv m2).
+  { destruct MIm1 as [HI GI SP]. constructor; [exact HI|exact GI|]. apply pushed_sp_lt. exact SP. }
+  assert (Hc2 : code_in m2 lp bc) by (eapply code_in_regs; [| |exact Hc1]; reflexivity).
+  assert (G2 : genv_rel3 rho1 m2) by (eapply genv_rel3_ext; [apply Xm12|reflexivity|exact G1]).
+  assert (Xs2m2 : cext s0 m2) by (eapply cext_trans; [exact X|]; eapply cext_trans; [apply Xm1|apply Xm12]).
+  assert (Hsp2 : sp m2 = sp m + n + 1) by (cbn [sp m2 pushed with_scap with_stack with_ip]; rewrite Hsp1; reflexivity).
+  assert (L2' : lrel3 lv m2).
+  { eapply lrel3_rext; [exact Xm12|reflexivity|]. eapply lrel3_rext; [exact Xm1|exact Hep1|exact L]. }
+  (* operator *)
+  destruct (exec3_n ob _ _ _ _ _ _ _ EX3 m2 lp bc Xs2m2 MIm2 Hc2 Hsf eq_refl G2 L2')
+    as (n3 & m3 & St3 & Fr3 & MIm3 & Hip3 & V3 & G3).
+  pose proof (f2_frame _ _ Fr3) as Fr3'.
+  pose proof (code_in_ext _ _ _ _ Hc2 (fr_ext _ _ Fr3')) as Hc3.
+  set (q := p + len ca + 2 + len cf) in *.
+  assert (Hclo : exists cp lamp cep, acc m3 = VPtr cp /\ heap_get (hp m3) cp = Ok (VClosure lamp cep)).
+  { pose proof V3 as V3'. cbn [vrep3] in V3'.
+    destruct V3' as (cp & lamp & cep & ceid & cslots & Hacc & Acp & Ccp & _).
+    exists cp, lamp, cep. split; [exact Hacc|]. rewrite (heap_get_alloc _ _ Acp), Ccp. reflexivity. }
+  destruct Hclo as (cp & lamp & cep & Hacc3 & Hgcp).
+  assert (Xm03 : rext m m3).
+  { eapply rext_trans; [exact Xm1|]. eapply rext_trans; [exact Xm12|]. apply frame2_rext. exact Fr3. }
+  assert (Hsp3 : sp m3 = sp m + n + 1) by (rewrite (fr_sp _ _ Fr3'); exact Hsp2).
+  assert (Hk3 : forall j, j <= sp m + n + 1 -> sget m3 j = sget m2 j) by (intros j Hj; apply (fr_stack _ _ Fr3'); lia).
+  assert (Hk3lo : forall j, j <= sp m + n -> sget m3 j = sget m1 j).
+  { intros j Hj. rewrite Hk3 by lia. unfold m2. rewrite sget_pushed_other by (cbn [sp with_ip]; lia). reflexivity. }
+  assert (Htop3 : sget m3 (sp m + n + 1) = VArgc n).
+  { rewrite Hk3 by lia. unfold m2. replace (sp m + n + 1) with (sp (with_ip m1 (lp, p + len ca + 2)) + 1) by (cbn [sp with_ip]; lia).
+    apply sget_pushed_top. }
+  assert (Hargs3 : forall i v, list_get vs i = Some v -> sget m3 (sp m + 1 + i) = v).
+  { intros i v Hi. pose proof (list_get_lt _ _ _ Hi) as Hlt. rewrite Hk3lo by lia. apply Hvs. exact Hi. }
+  assert (Hlow3 : forall j, j <= sp m -> sget m3 j = sget m j).
+  { intros j Hj. rewrite Hk3lo by lia. apply Hst1. exact Hj. }
+  assert (Vvs3 : Forall2 (fun v r => vrep3 m3 v r) vs rs).
+  { eapply Forall2_vrep3_ext; [|exact Vvs]. eapply rext_trans; [exact Xm12|apply frame2_rext; exact Fr3]. }
+  assert (Hbp3 : bp m3 = bp m) by (rewrite (fr_bp _ _ Fr3'); exact Hbp1).
+  assert (Hep3 : ep m3 = ep m) by (rewrite (fr_ep _ _ Fr3'); exact Hep1).
+  assert (Hlog3 : out_log m3 = out_log m) by (rewrite (fr_log _ _ Fr3'); exact Hlog1).
+  assert (St03 : steps (n1 + 1 + n3) m = Some m3).
+  { eapply steps_trans; [eapply steps_trans; [exact St1|apply steps_one; exact Ei]|exact St3]. }
+  assert (Hq : p + len (ca ++ [VOp OPushImmediate; VArgc n] ++ cf ++ [callop]) = q + 1).
+  { unfold q. lens. lia. }
+  destruct tail.
+  - (* tail position: TCALL re-uses the current frame *)
+    right. split; [reflexivity|].
+    destruct (Ht eq_refl) as (k & e & i & b & Hfr & Hspf).
+    assert (Hfr3 : frame_at m3 k e i b) by (eapply frame_at_keep; [exact Hfr|exact Hspf|exact Hbp3|exact Hlow3]).
+    destruct (step_tcall_closure ob m3 lp q bc cp lamp cep k e i b n Hc3 Hip3 Hsc Hacc3 Hgcp Hfr3
+                ltac:(rewrite Hsp3; exact Htop3) ltac:(rewrite Hbp3, Hsp3; lia) (mi_sp _ MIm3))
+      as (T & Et & TT1 & TT2 & TT3 & TT4 & TT5).
+    rewrite Hbp3 in Et, TT1, TT2, TT3, TT4, TT5.
+    set (B := bp m - k) in *.
+    set (m5 := with_ip (with_bp (with_stack (with_ip m3 (lp, q + 1)) T (B + n + 3)) b) (lamp, 0)) in *.
+    assert (Hs5 : forall j, sget m5 j = slot T j) by reflexivity.
+    assert (Hkb : k <= bp m) by (destruct Hfr as (_ & _ & _ & _ & H5); exact H5).
+    assert (X35 : rext m3 m5) by (apply rext_same; try reflexivity; lia).
+    assert (MIm5 : minv m5).
+    { destruct MIm3 as [HI GI SP]. constructor; [exact HI|exact GI|].
+      cbn [sp scap m5 with_ip with_bp with_stack]. unfold B. lia. }
+    destruct (callee_run3 ps cs body cvals n B e (fst i) (snd i) vs rs rho2 r rho3 m5 lamp IHb MIm5
+                ltac:(eapply vrep3_ext; [exact X35|exact V3])
+                ltac:(exists cp, cep; split; [exact Hacc3|exact Hgcp]) eq_refl Hlrs Hn eq_refl
+                ltac:(rewrite Hs5; exact TT2) ltac:(rewrite Hs5; exact TT3) ltac:(rewrite Hs5; exact TT4) Hvl)
+      as (k8 & m8 & St8 & X58 & MI8 & V8 & G8 & Hsp8 & Hep8 & Hip8 & Hbp8 & Hlog8 & Hk8).
+    { intros j v Hj. pose proof (list_get_lt _ _ _ Hj) as Hlt. rewrite Hs5, TT1 by lia.
+      rewrite Hsp3. replace (sp m + n + 1 - n + j) with (sp m + 1 + j) by lia. apply Hargs3. exact Hj. }
+    { eapply Forall2_vrep3_ext; [exact X35|exact Vvs3]. }
+    { eapply genv_rel3_ext; [apply X35|reflexivity|exact G3]. }
+    exists (n1 + 1 + n3 + 1 + k8)%nat, m8, k, e, i, b.
+    split; [eapply steps_trans; [eapply steps_trans; [exact St03|apply steps_one; exact Et]|exact St8]|].
+    split; [exact Hfr|]. split; [eapply rext_trans; [exact Xm03|]; eapply rext_trans; eassumption|].
+    split; [exact MI8|]. split; [exact V8|]. split; [exact G8|]. split; [exact Hsp8|]. split; [exact Hep8|].
+    split; [rewrite Hip8; destruct i; reflexivity|]. split; [exact Hbp8|].
+    split; [rewrite Hlog8; exact Hlog3|].
+    intros j Hj. rewrite Hk8 by exact Hj. rewrite Hs5, TT5 by exact Hj. apply Hlow3. unfold B in Hj. lia.
+  - (* non-tail position: CALL pushes a new frame above %sp *)
+    left.
+    pose proof (step_call_closure ob m3 lp q bc cp lamp cep Hc3 Hip3 Hsc Hacc3 Hgcp) as Ecall.
+    set (m5 := with_ip (pushed (pushed (with_ip m3 (lp, q + 1)) (VEp (ep m3))) (VIp lp (q + 1))) (lamp, 0)) in *.
+    assert (X35 : rext m3 m5) by (apply rext_same; try reflexivity; lia).
+    assert (MIm5 : minv m5).
+    { destruct MIm3 as [HI GI SP]. constructor; [exact HI|exact GI|].
+      unfold m5. change (sp (with_ip ?x _)) with (sp x). change (scap (with_ip ?x _)) with (scap x).
+      apply pushed_sp_lt. apply pushed_sp_lt. exact SP. }
+    assert (Hsp5 : sp m5 = sp m + n + 3) by (cbn [sp m5 pushed with_scap with_stack with_ip]; rewrite Hsp3; lia).
+    assert (Hk5 : forall j, j <= sp m + n + 1 -> sget m5 j = sget m3 j).
+    { intros j Hj. unfold m5. change (sget (with_ip ?x _) ?jj) with (sget x jj).
+      rewrite sget_pushed_other by (cbn [sp pushed with_scap with_stack with_ip]; rewrite Hsp3; lia).
+      rewrite sget_pushed_other by (cbn [sp with_ip]; rewrite Hsp3; lia). reflexivity. }
+    assert (H52 : sget m5 (sp m + n + 2) = VEp (ep m3)).
+    { unfold m5. change (sget (with_ip ?x _) ?jj) with (sget x jj).
+      rewrite sget_pushed_other by (cbn [sp pushed with_scap with_stack with_ip]; rewrite Hsp3; lia).
+      replace (sp m + n + 2) with (sp (with_ip m3 (lp, q + 1)) + 1) by (cbn [sp with_ip]; rewrite Hsp3; lia).
+      apply sget_pushed_top. }
+    assert (H53 : sget m5 (sp m + n + 3) = VIp lp (q + 1)).
+    { unfold m5. change (sget (with_ip ?x _) ?jj) with (sget x jj).
+      replace (sp m + n + 3) with (sp (pushed (with_ip m3 (lp, q + 1)) (VEp (ep m3))) + 1)
+        by (cbn [sp pushed with_scap with_stack with_ip]; rewrite Hsp3; lia).
+      apply sget_pushed_top. }
+    destruct (callee_run3 ps cs body cvals n (sp m) (ep m3) lp (q + 1) vs rs rho2 r rho3 m5 lamp IHb MIm5
+                ltac:(eapply vrep3_ext; [exact X35|exact V3])
+                ltac:(exists cp, cep; split; [exact Hacc3|exact Hgcp]) eq_refl Hlrs Hn Hsp5
+                ltac:(rewrite Hk5 by lia; exact Htop3) H52 H53 Hvl)
+      as (k8 & m8 & St8 & X58 & MI8 & V8 & G8 & Hsp8 & Hep8 & Hip8 & Hbp8 & Hlog8 & Hk8).
+    { intros j v Hj. pose proof (list_get_lt _ _ _ Hj) as Hlt. rewrite Hk5 by lia. apply Hargs3. exact Hj. }
+    { eapply Forall2_vrep3_ext; [exact X35|exact Vvs3]. }
+    { eapply genv_rel3_ext; [apply X35|reflexivity|exact G3]. }
+    assert (Xm08 : rext m m8) by (eapply rext_trans; [exact Xm03|]; eapply rext_trans; eassumption).
+    exists (n1 + 1 + n3 + 1 + k8)%nat, m8.
+    split; [eapply steps_trans; [eapply steps_trans; [exact St03|apply steps_one; exact Ecall]|exact St8]|].
+    split.
+    { split; [|apply Xm08]. constructor.
+      - apply Xm08.
+      - exact Hsp8.
+      - rewrite Hbp8. exact Hbp3.
+      - rewrite Hep8. exact Hep3.
+      - rewrite Hlog8. exact Hlog3.
+      - intros j Hj. rewrite Hk8 by exact Hj. rewrite Hk5 by lia. apply Hlow3. exact Hj. }
+    split; [exact MI8|]. split; [rewrite Hip8, Hq; reflexivity|]. split; [exact V8|exact G8].
 Qed.
 
 End Run3.
